@@ -198,7 +198,63 @@ def gen_join_destroy(rng, sid):
     return {"id": sid, "cluster": cluster, "ops": ops}
 
 
+def gen_join_names(rng, sid):
+    """two DMaps whose names differ by an inner 'dmap.' (the prefix of fragment names) or are prefixes of each other hold data while
+    a member joins and fragments migrate; then one of them is destroyed: each keeps exactly its own keys"""
+    base = "c19n%d" % sid
+    A, B = rng.choice([(base + ".dmap.s", base + ".s"), ("dmap." + base, base), (base + "dmap.", base), ("dmap.dmap." + base, "dmap." + base)])
+    n = rng.choice([1, 2])
+    keys = [dmaplib.hx("k%02d" % i) for i in range(30)]          # the same keys in both
+    ops = []
+    for k in keys:
+        ops.append({"op": "put", "c": "emb%d" % rng.randrange(n), "d": A, "k": k, "v": dmaplib.hx("A" + k[-4:])})
+        ops.append({"op": "put", "c": "emb%d" % rng.randrange(n), "d": B, "k": k, "v": dmaplib.hx("B" + k[-4:])})
+    ops += [{"op": "join"}, {"op": "waitstable", "ms": 30000}]
+    for m in range(n + 1):
+        ops.append({"op": "balance", "m": m})
+    ops.append({"op": "waitstable", "ms": 30000})
+    for k in keys:
+        ops.append({"op": "get", "c": "emb%d" % rng.randrange(n + 1), "d": A, "k": k, "_want": dmaplib.hx("A" + k[-4:])})
+        ops.append({"op": "get", "c": rng.choice(["cc", "emb%d" % n]), "d": B, "k": k, "_want": dmaplib.hx("B" + k[-4:])})
+    ops.append({"op": "scan", "c": "emb%d" % n, "d": A, "_n": len(keys)})
+    ops.append({"op": "scan", "c": "cc", "d": B, "_n": len(keys)})
+    first, second = (A, B) if rng.random() < 0.5 else (B, A)
+    ops.append({"op": "destroy", "c": "cc", "d": first})
+    for k in keys:
+        ops.append({"op": "get", "c": "emb%d" % rng.randrange(n + 1), "d": first, "k": k, "_want": None})
+        ops.append({"op": "get", "c": "emb%d" % rng.randrange(n + 1), "d": second, "k": k, "_want": dmaplib.hx(("A" if second == A else "B") + k[-4:])})
+    ops.append({"op": "scan", "c": "emb0", "d": first, "_n": 0})
+    ops.append({"op": "scan", "c": "emb%d" % n, "d": second, "_n": len(keys)})
+    cluster = {"members": n, "replicas": rng.choice([1, 2]) if n > 1 else 1, "partitions": 7, "table": 4096, "evict_workers": 1}
+    return {"id": sid, "cluster": cluster, "ops": ops, "_kind": "names"}
+
+
+def judge_join_names(sc, obs):
+    if len(obs) < len(sc["ops"]):
+        return ("env", "scenario aborted")
+    for i, (op, ob) in enumerate(zip(sc["ops"], obs)):
+        o, r = op["op"], ob.get("r")
+        if o == "waitstable" and r != "ok":
+            return ("env", "cluster did not re-stabilise: %s" % r)
+        if o in ("put", "destroy") and r != "ok":
+            return ("env" if o == "put" else i, "%s returned %s" % (o, r))
+        if o == "get":
+            want = op["_want"]
+            if want is None and r != "notfound":
+                return (i, "key %s of the destroyed DMap %s reads %s %s" % (op["k"][-4:], op["d"], r, ob.get("val", "")))
+            if want is not None and (r != "ok" or ob.get("val") != want):
+                return (i, "key %s of DMap %s reads %s %s, written %s (nobody touched this DMap)" % (op["k"][-4:], op["d"], r, ob.get("val", ""), want))
+        if o == "scan":
+            if r != "ok":
+                return (i, "scan of %s returned %s" % (op["d"], r))
+            if len(ob.get("keys") or []) != op["_n"] or len(set(ob.get("keys") or [])) != op["_n"]:
+                return (i, "scan of DMap %s yields %d keys, it holds %d" % (op["d"], len(ob.get("keys") or []), op["_n"]))
+    return None
+
+
 def judge_failover_destroy(sc, obs):
+    if sc.get("_kind") == "names":
+        return judge_join_names(sc, obs)
     if len(obs) < len(sc["ops"]):
         return ("env", "scenario aborted")
     destroyed = False
@@ -235,6 +291,7 @@ def failover_part(res):
     import memberlib
     scs = [gen_failover_destroy(vlib.rng_for(res.seed, PID, "failover", j), 50000 + j) for j in range(3 if res.tier == "quick" else 12)]
     scs += [gen_join_destroy(vlib.rng_for(res.seed, PID, "joindestroy", j), 51000 + j) for j in range(2 if res.tier == "quick" else 8)]
+    scs += [gen_join_names(vlib.rng_for(res.seed, PID, "joinnames", j), 52000 + j) for j in range(3 if res.tier == "quick" else 12)]
     results = memberlib.run_membership(scs, jobs=4)
     bad = env = 0
     for sc in scs:
@@ -249,12 +306,14 @@ def failover_part(res):
         if v:
             bad += 1
             if bad <= 3:
-                res.violation({"kind": "impl-violates-property", "part": "failover", "cluster": sc["cluster"], "scenario": {"ops": sc["ops"]},
+                res.violation({"kind": "impl-violates-property", "part": "failover", "cluster": sc["cluster"], "scenario": {"ops": sc["ops"], "_kind": sc.get("_kind")},
                                "failed_step": v[0], "impl_trace": r["obs"][max(0, v[0] - 2):v[0] + 1],
                                "predicate": {"name": "Destroy removes every copy after a fail-over", "verdict": v[1]}, "seed": res.seed})
     res.coverage["destroy_after_failover"] = {"scenarios": len(scs), "environment": env, "failures": bad,
                                               "rule": "2-3 members, 2 copies: 30 keys, a member stops, the keys are overwritten, Destroy; every copy of every "
-                                                      "kind on every member must be gone, all keys read not-found, the scan is empty, the DMap takes new writes"}
+                                                      "kind on every member must be gone, all keys read not-found, the scan is empty, the DMap takes new writes; and two DMaps whose "
+                                                      "names differ by an inner or leading 'dmap.' hold the same 30 keys while a member joins and the fragments "
+                                                      "migrate, then one is destroyed: each reads and scans exactly its own entries"}
 
 
 def run(res):
@@ -277,7 +336,7 @@ def replay_failover(res, obj, path):
     ok, out = vlib.harness_build()
     if not ok:
         raise vlib.CheckError(out)
-    sc = {"id": 0, "cluster": obj["cluster"], "ops": obj["scenario"]["ops"]}
+    sc = {"id": 0, "cluster": obj["cluster"], "ops": obj["scenario"]["ops"], "_kind": obj["scenario"].get("_kind")}
     for attempt in range(3):
         r = memberlib.run_membership([sc])[0]
         v = None if r.get("env", {}).get("error") else judge_failover_destroy(sc, r["obs"])
